@@ -17,6 +17,8 @@ def main(tier, seed):
     cov['asmtext_accepted'] = res['accepted']
     cov['asmtext_states'] = res['states']
     for rj in res['rejected']:
+        if rj.get('wf_only') and rj['clause'] == 'unescape_differs':
+            continue          # a single line of a split directive: only its well-formedness is judged
         extra.append(common.Violation(PROP, 'emitted literal %r does not denote %r (%s at %s)' % (
             rj['text'], rj['want'], rj['clause'], rj['position']),
             classifier={'kind': 'asmtext:' + str(rj['clause']), 'has_backslash': rj['has_backslash'], 'char': rj['char']},
